@@ -583,6 +583,93 @@ func oraclePollTiming(o *e2eOutcome, v vfn) {
 	}
 }
 
+// oracleSentLog (C02 / C08): the sender records a version as sent (sent log, hand-over
+// to the poller) only when every byte of it has been acknowledged by the receiver or
+// was reported held by it.  Judged at the moment of the record, against the true
+// size of the registered version with that hash.
+func oracleSentLog(o *e2eOutcome, v vfn) {
+	firstScan := map[int]int{}
+	for _, e := range o.events {
+		if e.Kind == "scan" {
+			if _, ok := firstScan[e.Gen]; !ok {
+				firstScan[e.Gen] = e.Seq
+			}
+		}
+	}
+	for _, e := range o.events {
+		if e.Kind != "sent_logged" {
+			continue
+		}
+		if fs, ok := firstScan[e.Gen]; !ok || e.Seq < fs {
+			continue
+		}
+		name, hash := e.Name, e.S
+		truth := int64(-1)
+		o.w.regMu.Lock()
+		for _, ver := range o.w.registry[name] {
+			if ver.MD5 == hash {
+				truth = int64(len(ver.Data))
+			}
+		}
+		o.w.regMu.Unlock()
+		if truth <= 0 {
+			continue
+		}
+		var rs, rsOther []iv // acknowledged ranges under this hash / under other hashes of the same name (same sender instance)
+		announcedSend := map[int64]bool{} // "bytes to send for this file" as the part descriptors themselves said
+		for _, d := range o.reqs {
+			if d.End == 0 || d.End > e.VT {
+				continue // no answer yet when the record was made
+			}
+			switch d.Class {
+			case "data":
+				for pi, p := range d.Parts {
+					if p.Name == name && p.Hash == hash && pi < len(d.Acked) && d.Acked[pi] {
+						rs = append(rs, iv{p.Beg, p.End})
+						announcedSend[p.Send] = true
+					} else if p.Name == name && d.Gen == e.Gen && pi < len(d.Acked) && d.Acked[pi] {
+						rsOther = append(rsOther, iv{p.Beg, p.End})
+					}
+				}
+			case "partials":
+				for _, p := range d.Parts {
+					if p.Name == name && p.Hash == hash && p.End > p.Beg {
+						rs = append(rs, iv{p.Beg, p.End})
+					}
+				}
+			case "recovery":
+				if d.Err == "" {
+					for pi, p := range d.Parts {
+						if pi < d.N && p.Name == name && p.Hash == hash {
+							rs = append(rs, iv{p.Beg, p.End})
+						}
+					}
+				}
+			}
+		}
+		if deliveredVersion(o, name, hash) && covered(rs) == 0 {
+			continue
+		}
+		if got := covered(rs); got < truth {
+			var sum int64
+			for _, r := range rs {
+				sum += r.e - r.b
+			}
+			fp := "logged-sent-before-fully-transmitted"
+			if sum >= truth {
+				fp = "polled-on-byte-count-with-duplicate-parts" // same root: bytes are added up per name, not ranges
+			} else if mix := covered(append(append([]iv{}, rs...), rsOther...)); (announcedSend[e.A] && e.A < truth && mix >= e.A) || mix >= truth {
+				// known: the transmission itself was cut to an OLDER version's size while its
+				// parts carry the newer version's hash (the cache entry a queued file points to
+				// is updated in place when the file is hashed again); the tracker did what the
+				// descriptors told it
+				fp = "sent-with-descriptor-mixing-two-versions"
+			}
+			v("C02", "poll-after-all-bytes-transmitted", fp, fmt.Sprintf("%s (hash %s, %d bytes) was recorded as sent (%d bytes logged) at %s when the receiver had acknowledged only %d of its bytes (counting repeats: %d)", name, hash, truth, e.A, e.VT, got, sum))
+		}
+	}
+}
+
 // oracleRelease (C02): releases only after validated receipt
 func oracleRelease(o *e2eOutcome, v vfn) {
 	for _, s := range o.statusBad {
